@@ -13,6 +13,10 @@ CHECKS = {
    tech="bounded exhaustive enumeration of surface programs per construct family x dialect x entry-point option set, compiled code under the consensus evaluator vs an independent reference interpreter",
    text="Programs are generated from the harness's own AST (never parsed by the repository) in five exhaustively enumerated sub-spaces: binder chains of length <= 2 (thorough 3) over 13 binder kinds x 2 binding variants x 3 name policies; every parameter tree with <= 3 (4) leaves plus flat/improper lists of up to 40 parameters in 6 function kinds, also with operator-lookalike names; every boundary literal and value-returning operator in 8 syntactic positions; call graphs with recursion, constant calls and &rest tails at every call site; small expression kernels. Each is compiled for all 6 sigils under both option sets the entry points derive and run by clvmr on 2-3 valuations; whenever the reference interpreter returns v the compiled code must return v.",
    note="Trusted: the reference interpreter (harness/src/lang.rs, ~400 lines, operators delegated to clvmr) as the statement of call-by-value meaning for the generated fragment; clvmr. One-directional; rejected programs make no claim. Known findings F13 F14 F27 F28 are matched by dialect + program feature + symptom."),
+ "C02": dict(engine="progmc", cat="exploration", ref="DESIGN.md 4/C02",
+   tech="bounded exhaustive differential exploration of the full optimisation-configuration matrix per program and dialect, plus reference interpreter",
+   text="A slice of C01's exhaustively enumerated sub-spaces (~350 programs quick, several thousand thorough) and the modern programs shipped under resources/tests are compiled for every sigil under all 8 combinations of optimize / frontend_opt / classic post-optimiser and run by clvmr on valuations enumerated from the parameter shape. Checked on every (program, valuation): every build equals the reference value; any two value-returning builds agree (across the two integer-mode groups only without zero-led literals); and within a dialect, switching optimize or the post-optimiser on never turns a value-returning build into a failing one (compared at equal frontend_opt, as the property states).",
+   note="Trusted: reference interpreter, clvmr. Shipped programs get argument trees enumerated over a 6-value alphabet; pairs where no build returns a value make no claim and are counted. Known findings F13 F14 F27 F28 matched as in C01."),
  "C04": dict(engine="clvmmc", cat="exploration", ref="DESIGN.md 4/C04",
    tech="bounded exhaustive enumeration of CLVM trees and of a path/wrapper/re-rooting family, optimiser output vs original under the consensus evaluator",
    text="Every CLVM tree with <= 4 (thorough 5) leaves over a 16-atom core alphabet, every (a (q . S) ARGS) with S <= 3 (4) leaves x 9 ARGS forms, and the product of ~1.7k (thorough ~4.8k) path atoms (1..9 bytes, all-ones, top-bit-set, zero-padded) x f/r wrapper chains (all short ones, homogeneous/alternating up to 80) x 6 re-rootings is optimised by optimize_sexp (and small trees by run_optimizer in both integer modes); original and output are evaluated by clvmr in a family of environments (complete trees, 90-deep spines, trees tailored to the path's bits). Exhaustive inside these bounds; the property's 'randomly beyond' region is replaced by the structured path family.",
